@@ -152,6 +152,7 @@ var notReach = map[string]string{
 	"share.PubPoly.Shares":                      "not called by the node",
 	"share.PubPoly.Equal":                       "name collision with Point.Equal; PubPoly.Equal is not called by the node (F3, owned by C09)",
 	"share.PubPoly.Check":                       "not called by the node",
+	"dosnode.reportErr":                         "guarded error send helper (C14)",
 	"dosnode.mergeErrors":                       "channel plumbing (C14)",
 	"dosnode.fanIn":                             "channel plumbing (C14)",
 	"dosnode.dataFetch":                         "HTTP client (third party)",
